@@ -1,46 +1,76 @@
 #!/usr/bin/env python3
-"""Emit the generated tables of DESIGN.md section 7 (fixes, findings, seeded changes, per-check numbers)."""
-import json, glob, os, subprocess
+"""Regenerate the generated tables of DESIGN.md section 7 in place (between <!-- GEN:x --> markers):
+7.2 numbers of the committed quick-tier evidence, 7.3a repairs, 7.3b known findings, 7.4 seeded changes."""
+import json, glob, os, re, subprocess
 V = '/verif'
 kf = json.load(open(f'{V}/known_findings.json'))['findings']
-print("#### 7.3.a Repairs committed to /repo (`fix:` commits), by property\n")
-print("| property | commit | what failed before the repair |\n|---|---|---|")
-for f in kf:
-    if f['status'] == 'fixed':
-        subj = ''
+
+
+def esc(s):
+    return str(s).replace('|', '\\|').replace('\n', ' ')
+
+
+def t73a():
+    out = ["| property | commit | what failed before the repair |", "|---|---|---|"]
+    for f in kf:
+        if f['status'] == 'fixed':
+            subj = ''
+            try:
+                subj = subprocess.check_output(['git', '-C', '/repo', 'log', '--format=%s', '-1', f['commit']], stderr=subprocess.DEVNULL).decode().strip()
+            except Exception:
+                pass
+            out.append(f"| {f['property']} | `{f['commit']}` {esc(subj)} | {esc(f['what'])} |")
+    return out
+
+
+def t73b():
+    out = ["| property | matcher (regex on the violation key) | what fails and why it is not repaired here |", "|---|---|---|"]
+    for f in kf:
+        if f['status'] == 'known':
+            out.append(f"| {f['property']} | `{esc(f['key'])}` | {esc(f['what'])} |")
+    return out
+
+
+def t74():
+    res = {}
+    if os.path.exists(f'{V}/seeded/RESULTS.txt'):
+        for l in open(f'{V}/seeded/RESULTS.txt'):
+            n, r = l.split(' ', 1)
+            res[n] = r.strip()
+    out = ["| seed | what the change breaks | what it needs to manifest | reported as | strengthening it prompted |", "|---|---|---|---|---|"]
+    dirs = [d for d in glob.glob(f'{V}/seeded/C??-*') if os.path.isdir(d)]
+    dirs.sort(key=lambda d: (os.path.basename(d).split('-')[0], int(os.path.basename(d).split('-')[1])))
+    for d in dirs:
+        n = os.path.basename(d)
         try:
-            subj = subprocess.check_output(['git', '-C', '/repo', 'log', '--format=%s', '-1', f['commit']], stderr=subprocess.DEVNULL).decode().strip()
+            m = json.load(open(f'{d}/meta.json'))
         except Exception:
-            pass
-        print(f"| {f['property']} | `{f['commit']}` {subj} | {f['what']} |")
-print("\n#### 7.3.b Known findings (recorded, not repaired)\n")
-print("| property | matcher (regex on the violation key) | what fails and why it is not repaired here |\n|---|---|---|")
-for f in kf:
-    if f['status'] == 'known':
-        print(f"| {f['property']} | `{f['key']}` | {f['what']} |")
-print("\n#### 7.4 Seeded changes and the checks that catch them\n")
-res = {}
-if os.path.exists(f'{V}/seeded/RESULTS.txt'):
-    for l in open(f'{V}/seeded/RESULTS.txt'):
-        n, r = l.split(' ', 1)
-        res[n] = r.strip()
-print("| seed | what the change breaks | what it needs to manifest | reported as | strengthening it prompted |\n|---|---|---|---|---|")
-for d in sorted(glob.glob(f'{V}/seeded/C??-?')):
-    n = os.path.basename(d)
-    try:
-        m = json.load(open(f'{d}/meta.json'))
-    except Exception:
-        continue
-    det = '; '.join(f"{k}: {v}" for k, v in m.get('detected_by', {}).items())
-    status = res.get(n, '')
-    mark = 'detected' if status.startswith('DETECTED') else ('patch no longer applies to the repaired tree' if 'NOAPPLY' in status else status[:40])
-    print(f"| {n} | {m.get('breaks','')} | {m.get('needs_to_manifest','')} | {det} ({mark}) | {m.get('notes','')} |")
-print("\n#### 7.2 Numbers of the committed quick-tier evidence\n")
-print("| check | level | wall s | evaluations | states | transitions | schedules | distinct | exhaustive | known findings |\n|---|---|---|---|---|---|---|---|---|---|")
-for i in range(1, 21):
-    p = f'{V}/evidence/C{i:02d}.json'
-    if not os.path.exists(p):
-        continue
-    e = json.load(open(p)); c = e['coverage']
-    kn = sum(1 for v in c.get('violation_keys', []) if v.get('known'))
-    print(f"| C{i:02d} | {e['level']} | {e['wall_s']:.0f} | {c.get('evaluations','')} | {c.get('states','')} | {c.get('transitions','')} | {c.get('schedules','')} | {c.get('distinct_nontrivial','')} | {c.get('exhaustive','')} | {kn} |")
+            continue
+        db = m.get('detected_by', {})
+        det = '; '.join(f"{k}: {v}" for k, v in db.items()) if isinstance(db, dict) else str(db)
+        status = res.get(n, '')
+        mark = 'detected' if status.startswith('DETECTED') else ('patch no longer applies to the repaired tree' if 'NOAPPLY' in status else status[:40])
+        out.append(f"| {n} | {esc(m.get('breaks',''))} | {esc(m.get('needs_to_manifest',''))} | {esc(det)} ({mark}) | {esc(m.get('notes',''))} |")
+    return out
+
+
+def t72():
+    out = ["| check | level | wall s | evaluations | states | transitions | schedules | distinct | exhaustive | known findings |", "|---|---|---|---|---|---|---|---|---|---|"]
+    for i in range(1, 21):
+        p = f'{V}/evidence/C{i:02d}.json'
+        if not os.path.exists(p):
+            continue
+        e = json.load(open(p)); c = e['coverage']
+        kn = sum(1 for v in c.get('violation_keys', []) if v.get('known'))
+        out.append(f"| C{i:02d} | {e['level']} | {e['wall_s']:.0f} | {c.get('evaluations','')} | {c.get('states','')} | {c.get('transitions','')} | {c.get('schedules','')} | {c.get('distinct_nontrivial','')} | {c.get('exhaustive','')} | {kn} |")
+    return out
+
+
+p = f'{V}/DESIGN.md'
+s = open(p).read()
+for name, gen in [('7.2', t72), ('7.3a', t73a), ('7.3b', t73b), ('7.4', t74)]:
+    a, b = f'<!-- GEN:{name} -->', f'<!-- /GEN:{name} -->'
+    i, j = s.index(a), s.index(b)
+    s = s[:i] + a + '\n' + '\n'.join(gen()) + '\n' + s[j:]
+open(p, 'w').write(s)
+print("DESIGN.md tables regenerated")
